@@ -144,8 +144,8 @@ catch_options: "(" CATCH_OPTION ("," CATCH_OPTION)* ")"
 atom: BOOL_CONST -> bool_const
     | RADIX_NUMBER -> number_const
     | CHAR_CONSTANT -> char_const
-    | STRING "i" -> string_case_const
-    | STRING "b" -> binary_string_const
+    | STRING_CASE -> string_case_const
+    | STRING_BINARY -> binary_string_const
     | STRING -> string_const
     | IDENTIFIER -> identifier_const
 
@@ -238,6 +238,9 @@ RADIX_NUMBER: HEX_NUMBER | BIN_NUMBER | NUMBER
 IDENTIFIER.-1: CNAME
 
 STRING: /"(?:[^"\\]|\\.)*"/
+// (the suffix is part of the token: between two tokens blanks and comments are skipped, and `"x" i` is a string followed by the name i)
+STRING_CASE: STRING "i"
+STRING_BINARY: STRING "b"
 
 // regex internals
 REGEX_UNIMPORTANT: /[^.?*()\[\]\\+{}|\/]|\\\.|\\\*|\\\(|\\\)|\\\[|\\\]|\\\+|\\\\|\\\{|\\\}|\\\||\\\//
@@ -4837,7 +4840,7 @@ class ParseCtx:
                     default_value = self._convert_string(decl.children[2].children[0].value)
                 elif decl.children[2].data == "binary_string_const":
                     try:
-                        default_value = self._convert_binary_string(decl.children[2].children[0].value).encode('latin-1')
+                        default_value = self._convert_binary_string(self._without_suffix(decl.children[2].children[0]).value).encode('latin-1')
                     except ValueError as e:
                         raise IllegalParseTree(e.args[0], decl.children[2].children[0])
                 else:
@@ -5006,6 +5009,13 @@ class ParseCtx:
             raise IllegalParseTree("Invalid expression in integer expr", expr)
 
 
+    def _without_suffix(self, literal: lark.Token) -> lark.Token:
+        """
+        The string part of a literal token that carries a suffix ("..."i, "..."b), at the same position
+        """
+
+        return literal.update(value=literal.value[:-1])
+
     def _parse_match_expr(self, expr: lark.Tree) -> Match:
         """
         Parse a match expression into a match object
@@ -5013,7 +5023,7 @@ class ParseCtx:
         if isinstance(expr, BoundArgumentTree):
             return self._parse_in_argument_scope(self._parse_match_expr, expr)
         if expr.data in ["string_const", "binary_string_const"]:
-            actual_content = expr.children[0]
+            actual_content = expr.children[0] if expr.data == "string_const" else self._without_suffix(expr.children[0])
             if expr.data == "string_const":
                 match = DirectMatch(self._convert_string(actual_content.value))
             else:
@@ -5028,7 +5038,7 @@ class ParseCtx:
             ProgramData.imbue(match, DTAG.SOURCE_COLUMN, actual_content.column)
             return match
         elif expr.data == "string_case_const":
-            actual_content = expr.children[0]
+            actual_content = self._without_suffix(expr.children[0])
             match = CaseDirectMatch(self._convert_string(actual_content.value))
             if not match.match_contents:
                 raise IllegalParseTree("Cannot match an empty string", actual_content)
